@@ -762,7 +762,12 @@ func ExpandAndReturnIndexNames(indexNameIn string, orgid int64, isElastic bool, 
 				if isIndexExcluded(indexName) {
 					continue
 				}
-				regexStr := "^" + strings.ReplaceAll(indexName, "*", `.*`) + "$"
+				// only "*" is a wildcard; every other character of the pattern (".", "+", "(", ...) stands for itself
+				literalParts := strings.Split(indexName, "*")
+				for i, literalPart := range literalParts {
+					literalParts[i] = regexp.QuoteMeta(literalPart)
+				}
+				regexStr := "^" + strings.Join(literalParts, `.*`) + "$"
 				indexRegExp, err := regexp.Compile(regexStr)
 				if err != nil {
 					log.Infof("ExpandAndReturnIndexNames: Error compiling regexStr=%v, Error=%v", regexStr, err)
